@@ -431,3 +431,10 @@ Proof.
   inversion Hk as [|? ? _ Hk']; subst. inversion Hk' as [|? ? Hd _]; subst.
   unfold isdigit_arg_ok, unit_as_int. destruct (N.ltb_spec d 128); lia.
 Qed.
+
+Lemma classify_examples :
+  parse_num TI8 W16 [32; 9; 45; 49; 50; 56; 120]%N = COk (-128) /\
+  parse_num TI8 W8 [49; 50; 56]%N = COutOfRange /\
+  parse_num TI32 W32 [49; 50; 46; 53]%N = CInvalidArgument /\
+  parse_num TU32 W8 [45; 53]%N = CInvalidArgument /\ classify_spec TU32 [45; 53]%N = COutOfRange.
+Proof. repeat split; vm_compute; reflexivity. Qed.
